@@ -1,6 +1,7 @@
 package rules
 
 import (
+	"strings"
 	"go/ast"
 	"go/types"
 
@@ -124,14 +125,71 @@ func funcValueUses(p *core.Program, obj *types.Func) []ast.Node {
 // wants to keep seeing as a call in flattened views (one line of reason each).
 var opaqueHelpers = map[string]string{
 	"pkg/gengo.writeImports": "C01.R4/C04 treat the import block as one write step of the file writer; its body is checked on its own (sorted imports)",
+	"pkg/types.newPkg":       "the package-record constructor is a unit of C12/C13 (comment indexes, tables) and of the C13.R3 ordering rule (construction after registration)",
+}
+
+// pipelineStage: h (transitively, through static calls) invokes user code through the
+// Generator / AliasGenerator interfaces. Such functions are stages of the run pipeline
+// (the per-package function, the dispatch loop, the dispatchers): the rules reason about
+// their returns (error edges) and call sites as units, so they are never inlined in the
+// general form, whatever they are called. Helpers extracted *from* them still are.
+var stageCache = map[*core.Func]bool{}
+
+func pipelineStage(p *core.Program, h *core.Func) bool {
+	if v, ok := stageCache[h]; ok {
+		return v
+	}
+	genType := "(" + core.G("pkg/gengo.Generator") + ").GenerateType"
+	genAlias := "(" + core.G("pkg/gengo.AliasGenerator") + ").GenerateAliasType"
+	res := false
+	for f := range reachableFrom(p, h) {
+		if f.Body == nil {
+			continue
+		}
+		for _, c := range core.Calls(f.Body, true) {
+			if n := core.CalleeName(f.Info(), c); n == genType || n == genAlias {
+				res = true
+			}
+		}
+	}
+	stageCache[h] = res
+	return res
 }
 
 func flatten(p *core.Program, f *core.Func) *core.Func {
 	if p.Opaque == nil {
 		p.Opaque = func(h *core.Func) bool { _, ok := opaqueHelpers[h.QName()]; return ok }
+		p.OpaqueGeneral = func(h *core.Func) bool { return pipelineStage(p, h) }
 	}
 	return p.Flatten(f)
 }
+
+var ctxTypeCache = map[*core.Program]string{}
+
+// ctxTypeName: the (unexported) context type of pkg/gengo, found as the receiver of its Execute method.
+func ctxTypeName(p *core.Program) string {
+	if s, ok := ctxTypeCache[p]; ok {
+		return s
+	}
+	name := ""
+	for _, f := range p.Funcs() {
+		if f.Decl != nil && f.Decl.Recv != nil && core.RelPkg(f.Pkg.PkgPath) == "pkg/gengo" && f.Decl.Name.Name == "Execute" {
+			if i := strings.Index(f.Name, ")."); i > 2 {
+				name = f.Name[2:i]
+			}
+		}
+	}
+	ctxTypeCache[p] = name
+	return name
+}
+
+// ctxMethod: a method of the context type by its (exported, interface) name.
+func ctxMethod(p *core.Program, method string) *core.Func {
+	return p.FuncByName("pkg/gengo", "(*"+ctxTypeName(p)+")."+method)
+}
+
+// ctxG: qualified name of the context type.
+func ctxG(p *core.Program) string { return core.G("pkg/gengo." + ctxTypeName(p)) }
 
 // unitRoot climbs from a function to the declared function whose flattened
 // view contains it: a private helper (unexported, one static call site in the
